@@ -28,7 +28,11 @@ ASSUMPTIONS = [
 CONFLICTS = [('maxsize', 'mincost'), ('mincost', 'maxsize'), ('gre', 'gen'), ('gen', 'gre'),
              ('minsize', 'gre'), ('lsb', 'maxsize'), ('maxsize', 'lsb'), ('lmb', 'mincost'),
              ('maxsize', 'gen'), ('maxsize', 'gre'), ('minsqcost', 'maxsize'),
-             ('mincostlsb', 'maxsize'), ('maxsize', 'minsqcost'), ('gre', 'maxsize')]
+             ('mincostlsb', 'maxsize'), ('maxsize', 'minsqcost'), ('gre', 'maxsize'),
+             # two criteria that measure (nearly) the same quantity, requested together
+             ('lsb', 'lmb'), ('lsb', 'lmb'), ('lmb', 'lsb'), ('mincostlsb', 'lmb'),
+             ('mincostlsb', 'lsb'), ('lsb', 'mincostlsb'), ('mincost', 'minsqcost'),
+             ('minsqcost', 'mincost'), ('gen', 'mincost'), ('maxsize', 'lmb')]
 
 LINE_OF = {'maxsize': 'maximising size', 'minsize': 'minimising size',
            'gen': 'generous up to position', 'gre': 'greedy up to position',
@@ -145,6 +149,14 @@ def _cases(draw, tier):
     inst = draw(strategies.instances(strategies.SIZES[tier]))
     if conflict:
         pair = list(draw(st.sampled_from(CONFLICTS)))
+        if all(n in ('lsb', 'lmb', 'mincostlsb') for n in pair):
+            # load criteria discriminate when targets cannot all be met: several lecturers
+            # (or hospitals) whose targets sit at their upper quotas
+            inst = draw(strategies.instances(strategies.SIZES[tier], cls=draw(st.sampled_from(
+                ['generic', 'shared_tight', 'more_lecturers', 'two_agent', 'zero_capacity'])),
+                min_len=draw(st.sampled_from([1, 2]))))
+            if inst['na'] == 3 and pct(draw) < 70:
+                inst['lt'] = [u if pct(draw) < 70 else t for t, u in zip(inst['lt'], inst['luq'])]
         extra = draw(st.sampled_from([0, 0, 1, 2]))
         others = [n for n in draw(st.permutations(strategies.CRIT_NAMES)) if n not in pair]
         names = pair + others[:extra]
